@@ -9,7 +9,7 @@ EXTENDS Props
 ModelAgrees(c, run) ==
   LET dom == IF "css" \in DOMAIN c.meta THEN Styled(c.doms[run.d], CssOf(c, run)) ELSE c.doms[run.d]
       m == RenderDoc(dom, run.cfg, run.w)
-      rich == run.route \in {"lines", "staged_lines"} /\ run.cfg.deco = "rich" IN
+      rich == run.route \in {"lines", "staged_lines", "restaged_lines"} /\ run.cfg.deco = "rich" IN
   /\ run.w >= 0
   /\ m.k = run.res.k
   /\ m.k = "ok" =>
